@@ -89,12 +89,10 @@ inductive Ans
 structure St where
   circuits : List (Nat × Nat) := []    -- `state.circuits`: Tor's id ↦ circuit object
   streams : List (Nat × Nat) := []     -- `state.streams`
-  cobj : List (Nat × Circ) := []
-  sobj : List (Nat × Strm) := []
+  cobj : List Circ := []               -- every circuit object ever created, by object id (position); never shrinks
+  sobj : List Strm := []
   circListeners : List Nat := []
   streamListeners : List Nat := []
-  nextC : Nat := 0
-  nextS : Nat := 0
   nextD : Nat := 0                     -- Deferreds handed to callers
   pending : List Cont := []            -- commands queued and not answered, oldest first
   attacher : Option Nat := none
@@ -112,10 +110,11 @@ inductive Out
   | asked (tok : Nat) (soid : Nat)     -- the attacher was consulted about this stream
   deriving DecidableEq, Repr
 
-def getC (s : St) (o : Nat) : Circ := (aget s.cobj o).getD {}
-def getS (s : St) (o : Nat) : Strm := (aget s.sobj o).getD {}
-def setC (s : St) (o : Nat) (c : Circ) : St := { s with cobj := aset s.cobj o c }
-def setS (s : St) (o : Nat) (x : Strm) : St := { s with sobj := aset s.sobj o x }
+def getC (s : St) (o : Nat) : Circ := (s.cobj[o]?).getD {}
+def getS (s : St) (o : Nat) : Strm := (s.sobj[o]?).getD {}
+/-- replace an existing object's record (no effect for an id that was never handed out) -/
+def setC (s : St) (o : Nat) (c : Circ) : St := { s with cobj := s.cobj.set o c }
+def setS (s : St) (o : Nat) (x : Strm) : St := { s with sobj := s.sobj.set o x }
 
 def Obs.fire (o : Obs) (ok : Bool) : Obs × List Out :=
   match o.fired with
@@ -156,46 +155,56 @@ def updatePath (s : St) (o : Nat) (quit : List Nat) (hops : List Text) : St × L
 
 def isTerminalC (st : Text) : Bool := st = str "CLOSED" || st = str "FAILED"
 
-/-- `Circuit.update(args)` on circuit object `o` -/
-def circUpdate (s : St) (o : Nat) (cid : Nat) (args : List Text) (quit : List Nat) : St × List Out :=
-  -- first sight: id set, `circuit_new` (the TorState registers the object under its id)
-  let r0 : St × List Out :=
-    if (getC s o).id.isNone then
-      let s1 := { setC s o { getC s o with id := some cid } with circuits := aset s.circuits cid o }
-      notifyC s1 o quit (str "new") [] []
-    else (s, [])
-  let st := args.getD 1 []
+/-- first sight of a circuit object: its id is set and `circuit_new` goes out (the TorState's own
+    handler registers the object under its id) -/
+def circFirst (s : St) (o cid : Nat) (quit : List Nat) : St × List Out :=
+  if (getC s o).id.isNone then
+    notifyC { setC s o { getC s o with id := some cid } with circuits := aset s.circuits cid o } o quit (str "new") [] []
+  else (s, [])
+
+/-- state, flags, purpose and build flags of the line -/
+def circRecord (s : St) (o : Nat) (args : List Text) : St :=
   let kw := findKeywords args
-  let c := getC r0.1 o
-  let c := { c with state := st, flags := kw,
+  let c := getC s o
+  setC s o { c with state := args.getD 1 [], flags := kw,
                     purpose := (kwGet kw (str "PURPOSE")).orElse fun _ => c.purpose,
                     buildFlags := match kwGet kw (str "BUILD_FLAGS") with
                       | some b => TxV.Split.splitOn ',' b
                       | none => c.buildFlags }
-  let s1 := setC r0.1 o c
-  let r1 : St × List Out :=
-    if st = str "LAUNCHED" then
-      let s2 := { setC s1 o { c with path := [] } with circuits := aset s1.circuits cid o }
-      notifyC s2 o quit (str "launched") [] []
-    else if !isTerminalC st && args.length > 2 then updatePath s1 o quit (TxV.Split.splitOn ',' (args.getD 2 []))
-    else (s1, [])
-  let r2 : St × List Out :=
-    if st = str "BUILT" then
-      let n := notifyC r1.1 o quit (str "built") [] []
-      let c := getC n.1 o
-      let f := c.built.fire true
-      (setC n.1 o { c with built := f.1 }, n.2 ++ f.2)
-    else if isTerminalC st then
-      -- `log.err` when a circuit FAILED with streams still on it (CLOSED only logs a message)
-      let complain : List Out := if st = str "FAILED" && !(getC r1.1 o).streams.isEmpty then [.err (str "failed-with-streams")] else []
-      let cl := circClosing r1.1 o
-      -- the TorState's own handler: `_when_built` fails, the circuit leaves `state.circuits`
-      let c := getC cl.1 o
-      let f := c.built.fire false
-      let s3 := { setC cl.1 o { c with built := f.1 } with circuits := adel cl.1.circuits cid }
-      let n := notifyC s3 o quit (if st = str "CLOSED" then str "closed" else str "failed") [] (createFlags kw)
-      (n.1, complain ++ cl.2 ++ f.2 ++ n.2)
-    else (r1.1, [])
+
+/-- LAUNCHED empties the path (and registers the object again); other live statuses take the path of the line -/
+def circPath (s : St) (o cid : Nat) (args : List Text) (quit : List Nat) : St × List Out :=
+  let st := args.getD 1 []
+  if st = str "LAUNCHED" then
+    notifyC { setC s o { getC s o with path := [] } with circuits := aset s.circuits cid o } o quit (str "launched") [] []
+  else if !isTerminalC st && args.length > 2 then updatePath s o quit (TxV.Split.splitOn ',' (args.getD 2 []))
+  else (s, [])
+
+/-- BUILT: listeners, then `_when_built`; CLOSED / FAILED: the pending close, `_when_closed`, the
+    TorState's own handler (`_when_built` fails, the circuit leaves `state.circuits`), then the listeners -/
+def circFinish (s : St) (o cid : Nat) (args : List Text) (quit : List Nat) : St × List Out :=
+  let st := args.getD 1 []
+  if st = str "BUILT" then
+    let n := notifyC s o quit (str "built") [] []
+    let c := getC n.1 o
+    let f := c.built.fire true
+    (setC n.1 o { c with built := f.1 }, n.2 ++ f.2)
+  else if isTerminalC st then
+    -- `log.err` when a circuit FAILED with streams still on it (CLOSED only logs a message)
+    let complain : List Out := if st = str "FAILED" && !(getC s o).streams.isEmpty then [.err (str "failed-with-streams")] else []
+    let cl := circClosing s o
+    let c := getC cl.1 o
+    let f := c.built.fire false
+    let s3 := { setC cl.1 o { c with built := f.1 } with circuits := adel cl.1.circuits cid }
+    let n := notifyC s3 o quit (if st = str "CLOSED" then str "closed" else str "failed") [] (createFlags (findKeywords args))
+    (n.1, complain ++ cl.2 ++ f.2 ++ n.2)
+  else (s, [])
+
+/-- `Circuit.update(args)` on circuit object `o` -/
+def circUpdate (s : St) (o : Nat) (cid : Nat) (args : List Text) (quit : List Nat) : St × List Out :=
+  let r0 := circFirst s o cid quit
+  let r1 := circPath (circRecord r0.1 o args) o cid args quit
+  let r2 := circFinish r1.1 o cid args quit
   (r2.1, r0.2 ++ r1.2 ++ r2.2)
 
 /-- `_circuit_update(line)`; lines whose first word is not a number raise before anything happens -/
@@ -207,8 +216,8 @@ def circEvent (s : St) (args : List Text) (quit : List Nat) : St × List Out :=
     match aget s.circuits cid with
     | some o => circUpdate s o cid args quit
     | none =>
-      let o := s.nextC
-      let s1 := { setC s o { listeners := s.circListeners.eraseDups } with nextC := s.nextC + 1 }
+      let o := s.cobj.length
+      let s1 := { s with cobj := s.cobj ++ [{ listeners := s.circListeners.eraseDups }] }
       circUpdate s1 o cid args quit
 
 def streamClosing (s : St) (o : Nat) : St × List Out :=
@@ -228,57 +237,70 @@ def knownStreamState (st : Text) : Bool :=
   st ∈ [str "NEW", str "NEWRESOLVE", str "SUCCEEDED", str "REMAP", str "CLOSED", str "FAILED", str "SENTCONNECT",
         str "DETACHED", str "SENTRESOLVE", str "CONTROLLER_WAIT"]
 
-/-- `Stream.update(args)`; the Bool says whether it raised (the caller then skips the attacher) -/
-def streamUpdate (s : St) (o : Nat) (sid : Nat) (args : List Text) (quit : List Nat) : St × List Out × Bool :=
+/-- id, flags, source address and state of the line -/
+def streamRecord (s : St) (o sid : Nat) (args : List Text) : St :=
   let kw := findKeywords args
   let x := getS s o
   let x := { x with id := some sid, flags := kw }
   let x := match (kwGet kw (str "SOURCE_ADDR")).bind rsplitColon with
     | some (a, p) => { x with sourceAddr := some a, sourcePort := (natOf p).getD 0 }
     | none => x
+  setS s o { x with state := some (args.getD 1 []) }
+
+/-- what the new state means: target, notifications, leaving the circuit -/
+def streamKind (s : St) (o sid : Nat) (args : List Text) (quit : List Nat) : St × List Out :=
   let st := args.getD 1 []
-  let x := { x with state := some st }
-  let s1 := setS s o x
-  if !knownStreamState st then (s1, [.err (str "unknown-state")], true) else
-  let r1 : St × List Out :=
-    if st = str "NEW" || st = str "NEWRESOLVE" || st = str "SUCCEEDED" then
-      let x := match x.targetHost, rsplitColon (args.getD 3 []) with
-        | none, some (h, p) => { x with targetHost := some h, targetPort := (natOf p).getD 0 }
-        | _, _ => x
-      let weird : List Out := if st = str "NEW" && x.circuit.isSome then [.err (str "circuit-valid-in-new")] else []
-      let n := notifyS (setS s1 o x) o quit (if st = str "NEW" then str "new" else str "succeeded") [] []
-      (n.1, weird ++ n.2)
-    else if st = str "REMAP" then
-      (setS s1 o { x with targetAddr := (rsplitColon (args.getD 3 [])).map (·.1) }, [])
-    else if st = str "CLOSED" || st = str "FAILED" then
-      let s2 := detach s1 o
-      let cl := streamClosing s2 o
-      -- the TorState's own handler: the stream leaves `state.streams`
-      let s3 := { cl.1 with streams := adel cl.1.streams sid }
-      let n := notifyS s3 o quit (if st = str "CLOSED" then str "closed" else str "failed") [] (createFlags kw)
-      (n.1, cl.2 ++ n.2)
-    else if st = str "DETACHED" then
-      notifyS (detach s1 o) o quit (str "detach") [] (createFlags kw)
-    else (s1, [])
-  if isGone st then (r1.1, r1.2, false) else
+  let kw := findKeywords args
+  let x := getS s o
+  if st = str "NEW" || st = str "NEWRESOLVE" || st = str "SUCCEEDED" then
+    let x' := match x.targetHost, rsplitColon (args.getD 3 []) with
+      | none, some (h, p) => { x with targetHost := some h, targetPort := (natOf p).getD 0 }
+      | _, _ => x
+    let weird : List Out := if st = str "NEW" && x.circuit.isSome then [.err (str "circuit-valid-in-new")] else []
+    let n := notifyS (setS s o x') o quit (if st = str "NEW" then str "new" else str "succeeded") [] []
+    (n.1, weird ++ n.2)
+  else if st = str "REMAP" then
+    (setS s o { x with targetAddr := (rsplitColon (args.getD 3 [])).map (·.1) }, [])
+  else if st = str "CLOSED" || st = str "FAILED" then
+    let cl := streamClosing (detach s o) o
+    -- the TorState's own handler: the stream leaves `state.streams`
+    let s3 := { cl.1 with streams := adel cl.1.streams sid }
+    let n := notifyS s3 o quit (if st = str "CLOSED" then str "closed" else str "failed") [] (createFlags kw)
+    (n.1, cl.2 ++ n.2)
+  else if st = str "DETACHED" then
+    notifyS (detach s o) o quit (str "detach") [] (createFlags kw)
+  else (s, [])
+
+/-- the circuit the line names: 0 takes the stream off its circuit; a circuit is taken when the stream has none -/
+def streamAttach (s : St) (o : Nat) (args : List Text) (quit : List Nat) : St × List Out × Bool :=
   match natOf (args.getD 2 []) with
-  | none => (r1.1, r1.2 ++ [.err (str "bad-line")], true)
-  | some 0 => (detach r1.1 o, r1.2, false)
+  | none => (s, [.err (str "bad-line")], true)
+  | some 0 => (detach s o, [], false)
   | some cid =>
-    match (getS r1.1 o).circuit with
+    match (getS s o).circuit with
     | none =>
-      match aget r1.1.circuits cid with
-      | none => (r1.1, r1.2 ++ [.err (str "unknown-circuit")], true)      -- `find_circuit` raises KeyError
+      match aget s.circuits cid with
+      | none => (s, [.err (str "unknown-circuit")], true)      -- `find_circuit` raises KeyError
       | some co =>
-        let s2 := setS r1.1 o { getS r1.1 o with circuit := some co }
-        if o ∈ (getC s2 co).streams then (s2, r1.2, false)
+        let s2 := setS s o { getS s o with circuit := some co }
+        if o ∈ (getC s2 co).streams then (s2, [], false)
         else
           let s3 := setC s2 co { getC s2 co with streams := (getC s2 co).streams ++ [o] }
           let n := notifyS s3 o quit (str "attach") (showNat cid) []
-          (n.1, r1.2 ++ n.2, false)
+          (n.1, n.2, false)
     | some co =>
-      if (getC r1.1 co).id = some cid then (r1.1, r1.2, false)
-      else (r1.1, r1.2 ++ [.err (str "circuit-id-changed")], false)       -- logged, attachment kept
+      if (getC s co).id = some cid then (s, [], false)
+      else (s, [.err (str "circuit-id-changed")], false)       -- logged, attachment kept
+
+/-- `Stream.update(args)`; the Bool says whether it raised (the caller then skips the attacher) -/
+def streamUpdate (s : St) (o : Nat) (sid : Nat) (args : List Text) (quit : List Nat) : St × List Out × Bool :=
+  let s1 := streamRecord s o sid args
+  let st := args.getD 1 []
+  if !knownStreamState st then (s1, [.err (str "unknown-state")], true) else
+  let r1 := streamKind s1 o sid args quit
+  if isGone st then (r1.1, r1.2, false) else
+  let r2 := streamAttach r1.1 o args quit
+  (r2.1, r1.2 ++ r2.2.1, r2.2.2)
 
 /-- does the text contain `.exit`? -/
 def hasExit (t : Text) : Bool :=
@@ -344,8 +366,8 @@ def streamEvent (s : St) (args : List Text) (quit : List Nat) (ans : Option Ans)
     match aget s.streams sid with
     | some o => let r := streamUpdate s o sid args quit; (r.1, r.2.1)
     | none =>
-      let o := s.nextS
-      let s1 := { setS s o { listeners := s.streamListeners.eraseDups } with nextS := s.nextS + 1, streams := aset s.streams sid o }
+      let o := s.sobj.length
+      let s1 := { s with sobj := s.sobj ++ [{ listeners := s.streamListeners.eraseDups }], streams := aset s.streams sid o }
       let r := streamUpdate s1 o sid args quit
       if r.2.2 || (aget r.1.streams sid).isNone then (r.1, r.2.1)
       else let m := maybeAttach r.1 o ans; (m.1, r.2.1 ++ m.2)
@@ -371,10 +393,10 @@ def step (s : St) : In → St × List Out
   | .circ args quit => circEvent s args quit
   | .strm args quit ans => streamEvent s args quit ans
   | .addCircListener lid =>
-    ({ s with cobj := s.cobj.map fun p => if (s.circuits.any fun q => q.2 = p.1) then (p.1, { p.2 with listeners := listen p.2.listeners lid }) else p,
+    ({ s with cobj := s.cobj.mapIdx fun i c => if (s.circuits.any fun q => q.2 = i) then { c with listeners := listen c.listeners lid } else c,
               circListeners := s.circListeners ++ [lid] }, [])
   | .addStreamListener lid =>
-    ({ s with sobj := s.sobj.map fun p => if (s.streams.any fun q => q.2 = p.1) then (p.1, { p.2 with listeners := listen p.2.listeners lid }) else p,
+    ({ s with sobj := s.sobj.mapIdx fun i x => if (s.streams.any fun q => q.2 = i) then { x with listeners := listen x.listeners lid } else x,
               streamListeners := s.streamListeners ++ [lid] }, [])
   | .listenC o lid => (setC s o { getC s o with listeners := listen (getC s o).listeners lid }, [])
   | .unlistenC o lid =>
